@@ -54,7 +54,7 @@ type JSONRPCResponse struct {
 // Conforms to the JSONRPCError definition in schema.json
 type JSONRPCError struct {
 	JSONRPC string    `json:"jsonrpc"`
-	ID      RequestId `json:"id,omitempty"`
+	ID      RequestId `json:"id"` // always present: null when the request's id could not be determined
 	Error   struct {
 		Code    int         `json:"code"`
 		Message string      `json:"message"`
